@@ -15,7 +15,9 @@ Proof.
 Qed.
 
 Ltac str_crit := intros; first [reflexivity | apply str_eqb_sym].
-Ltac num_crit := intros; lia.
+(* straight-line boolean code (let-bound intermediate results, `if b then b else c` for `b or c`) is first flattened *)
+Ltac num_crit := intros; cbv zeta;
+  repeat match goal with |- context [if ?c then _ else _] => destruct c eqn:? end; lia.
 
 Lemma gen_seqid_spec acc cur : gen_seqid acc cur = str_eqb (m_seqid acc) (m_seqid cur).
 Proof. unfold gen_seqid. str_crit. Qed.
